@@ -1,6 +1,7 @@
 import ScyllaVerif.Model.Util
 import ScyllaVerif.Model.Prepared
 import ScyllaVerif.Model.PreparedSession
+import ScyllaVerif.Model.PreparedCacheConc
 /-! Drivers of the `pb` (Connection::prepare_batch) and `cs` (CachingSession / Session::prepare) cases of C14.
 `pb` is computed from the model (`connPrepareBatch`, any set order: the PREPARE texts are printed sorted).
 `cs` is a CHECKER: which cache entry is evicted (`DashMap::iter().next()`) and in which order concurrent misses are
@@ -41,7 +42,7 @@ def showF : FStmt → String
   | .byText t v => s!"t:{hexOfString t}/{showVals v}"
   | .byId id v => s!"i:{hexOfString id}#0/{showVals v}"
 
-def runPb (cfg fail items : String) : String :=
+def runPb (cfg fail items ev : String) : String :=
   match cfg.splitOn ".", (if items == "-" then some [] else (items.splitOn ",").mapM parseItem) with
   | [cl, scl, ts], some its =>
     match cl.toNat?, (if scl == "-" then some none else scl.toNat?.map some),
@@ -61,10 +62,16 @@ def runPb (cfg fail items : String) : String :=
       match connPrepareBatch prep order b vals with
       | .error (e, _) => s!"prep=* | frame=- | res=err:DbError:{e}"
       | .ok (b', sent) =>
+        -- server-side eviction on the rebuilt batch: the ids at the named positions, one per BATCH frame
+        let positions : List Nat := if ev == "-" then [] else (ev.splitOn ".").filterMap String.toNat?
+        let script : List String := positions.filterMap (fun pos => match (b'.stmts[pos]? : Option BStmt) with
+          | some (BStmt.prepared p) => some p.id | _ => none)
+        let rounds := (batchRounds b' script).filterMap id
+        let reS := if rounds.isEmpty then "-" else ",".intercalate (rounds.map hexOfString)
         let fr := frameStmts b'.stmts vals
         let items := if fr.isEmpty then "-" else ",".intercalate (fr.map showF)
         let prepS := if sent.isEmpty then "-" else ",".intercalate (sent.map hexOfString)
-        s!"prep={prepS} | frame=ty{b'.ty} {items} cl={optS toString b'.cfg.cl} scl={optS toString b'.cfg.scl} ts={optS toString b'.cfg.ts} | res=ok"
+        s!"prep={prepS} | frame=ty{b'.ty} {items} cl={optS toString b'.cfg.cl} scl={optS toString b'.cfg.scl} ts={optS toString b'.cfg.ts} | re={reS} | res=ok"
     | _, _, _, _ => "bad-case"
   | _, _ => "bad-case"
 
@@ -204,11 +211,65 @@ def toNatErr : Except PErr String → Except Nat String
   | .error .idsMismatch => .error 1
   | .error .noConnections => .error 2
 
+/-! ### concurrent callers (`c<t><t>…`): every interleaving of the MODEL `PreparedCacheConc.step` -/
+
+namespace Conc
+open ScyllaVerif.PreparedCacheConc
+
+def pcKey : Pc → String
+  | .idle => "i"
+  | .lookup t => "l" ++ t
+  | .preparing t => "p" ++ t
+  | .loopHead e => "h" ++ e.text ++ "/" ++ e.id
+  | .removing e v => "r" ++ e.text ++ "/" ++ e.id ++ "/" ++ v
+  | .inserting e => "n" ++ e.text ++ "/" ++ e.id
+  | .done e m => "d" ++ e.text ++ "/" ++ e.id ++ (if m then "+" else "-")
+  | .failed c => "f" ++ toString c
+
+def stKey (m : Nat) (st : State) : String :=
+  let c := (st.cache.map (fun e => e.text ++ "/" ++ e.id)).mergeSort (· ≤ ·)
+  "|".intercalate c ++ "#" ++ "|".intercalate ((List.range m).map (fun k => pcKey (st.pc k)))
+
+def finished (m : Nat) (st : State) : Bool :=
+  (List.range m).all (fun k => match st.pc k with | .done _ _ | .failed _ => true | _ => false)
+
+def dedupSt (m : Nat) (sts : List State) : List State :=
+  (sts.foldl (fun (acc : List (String × State)) s =>
+    let k := stKey m s
+    if acc.any (·.1 == k) then acc else (k, s) :: acc) []).map (·.2)
+
+/-- all successors of a state: every caller that can move, every `iter().next()` choice -/
+def successors (cap : Nat) (prep : String → Except Nat String) (m : Nat) (st : State) : List State :=
+  ((List.range m).map (fun k =>
+    match st.pc k with
+    | .done _ _ | .failed _ | .idle => []
+    | .loopHead _ => (List.range (max st.cache.length 1)).map (fun c => step cap prep st k c)
+    | _ => [step cap prep st k 0])).flatten
+
+/-- every terminal state reachable by some interleaving -/
+def explore (cap : Nat) (prep : String → Except Nat String) (m : Nat) : Nat → List State → List State → List State
+  | 0, _, acc => acc
+  | fuel + 1, frontier, acc =>
+    if frontier.isEmpty then acc else
+    let next := dedupSt m ((frontier.map (successors cap prep m)).flatten)
+    let (fin, rest) := next.partition (finished m)
+    explore cap prep m fuel rest (dedupSt m (acc ++ fin))
+
+/-- every state reachable at all (for operations that are cut short by an error) -/
+def exploreAll (cap : Nat) (prep : String → Except Nat String) (m : Nat) : Nat → List State → List State → List State
+  | 0, _, acc => acc
+  | fuel + 1, frontier, acc =>
+    if frontier.isEmpty then acc else
+    let next := dedupSt m ((frontier.map (successors cap prep m)).flatten)
+    exploreAll cap prep m fuel (next.filter (fun s => !(finished m s))) (dedupSt m (acc ++ next))
+
+end Conc
+
 /-- one op: the candidate caches after it, or why the implementation's token is not producible by the model -/
 def csStep (st : CsState) (idx : Nat) (op tok : String) : Except String CsState :=
   let cs := op.toList
   match cs with
-  | 'M' :: _ | 'N' :: _ | 'F' :: _ | 'G' :: _ => if tok == op then .ok st else .error "event token"
+  | 'M' :: _ | 'N' :: _ | 'F' :: _ | 'G' :: _ | 'V' :: _ => if tok == op then .ok st else .error "event token"
   | 'x' :: _ =>
     match digitAt cs 1, digitAt cs 3, tok.splitOn "~" with
     | some t, some k, [opE, paE, frame, res] =>
@@ -259,41 +320,88 @@ def csStep (st : CsState) (idx : Nat) (op tok : String) : Except String CsState 
           | some 'p', some t => some (.prepared ⟨csTexts.getD t "" ++ "#0", csTexts.getD t "", Cfg.default, 5000, false⟩)
           | _, _ => none)
         let b : Batch := ⟨1, ⟨some 4, some 9, some (Int.ofNat (1000 + idx)), idx % 2 == 0⟩, stmts⟩
+        -- `try_join_all`: the unprepared statements of the batch are CONCURRENT callers of add_prepared_statement on the one
+        -- cache (Model/PreparedCacheConc.lean); the all-lookups-first schedule is `cachingBatch` (Model/PreparedSession.lean)
+        let qTexts : List Nat := stmts.filterMap (fun s => match s with | .query q => some (textNo q.text) | .prepared _ => none)
+        let m := qTexts.length
+        let prepOf (text : String) : Except Nat String :=
+          match pa.lookup (textNo text) with
+          | some answers => (match (prepareOutcomes st.conns answers).head? with | some o => toNatErr o | none => .error 0)
+          | none => .error 0
+        let errLabels : List String := (pa.map (fun (_, answers) => (prepareOutcomes st.conns answers).filterMap (fun o =>
+          match o with | .error pe => some (perrLabel pe) | .ok _ => none))).flatten
         let results : List Cache := (st.cands.map (fun c =>
-          -- the texts the MODEL asks the cluster about, with multiplicity
-          let missedQ := if allPrepared b then [] else missed c b.stmts
-          let missedT := missedQ.map (fun q => textNo q.text)
-          -- the harness must have seen PREPAREs for exactly those texts, the right number of frames per node
-          if !(pa.all (fun (t, _) => missedT.contains t)) || !(missedT.all (fun t => (pa.lookup t).isSome)) then [] else
-          if !(pa.all (fun (t, answers) => framesOk st.conns (missedT.filter (· == t)).length answers)) then [] else
-          -- one outcome choice per text (usually a single one)
-          let choice : List (Nat × List (Except PErr String)) := pa.map (fun (t, answers) => (t, prepareOutcomes st.conns answers))
-          let combos : List (List (Nat × Except PErr String)) := choice.foldl (fun acc (t, os) =>
-            (acc.map (fun a => os.map (fun o => a ++ [(t, o)]))).flatten) [[]]
-          (combos.map (fun combo =>
-            let prep : String → Except Nat String := fun text => match combo.lookup (textNo text) with
-              | some o => toNatErr o
-              | none => .error 0
-            match cachingBatch st.u prep c b with
-            | .ok (b', _) =>
-              if frame != batchToken b' idx || res != "ok" then [] else
-              -- the misses reach the cache in any completion order, each with its own eviction choices
-              let done : List PStmt := missedQ.filterMap (fun q => match prep q.text with
-                | .ok id => some ⟨id, q.text, q.cfg, q.page, st.u⟩ | .error _ => none)
-              ((perms done.length done).map (fun order =>
-                order.foldl (fun (cs : List Cache) s => (cs.map (fun c' => cacheAddChoices st.cap c' s)).flatten) [c])).flatten
-            | .error _ =>
-              -- try_join_all fails with one of the preparation errors; the other preparations may or may not have
-              -- completed (and reached the cache) before that
-              let labels := combo.filterMap (fun (_, o) => match o with | .error pe => some (perrLabel pe) | .ok _ => none)
-              if !labels.contains res || frame != "-" then [] else
-              let good : List PStmt := missedQ.filterMap (fun q => match prep q.text with
-                | .ok id => some ⟨id, q.text, q.cfg, q.page, st.u⟩ | .error _ => none)
-              let subsets := good.foldl (fun (acc : List (List PStmt)) e => acc ++ acc.map (· ++ [e])) [[]]
-              (subsets.map (fun sub => ((perms sub.length sub).map (fun order =>
-                order.foldl (fun (cs : List Cache) s => (cs.map (fun c' => cacheAddChoices st.cap c' s)).flatten) [c])).flatten)).flatten)).flatten)).flatten
+          if allPrepared b then
+            (match cachingBatch st.u prepOf c b with
+             | .ok (b', _) => if pa.isEmpty && frame == batchToken b' idx && res == "ok" then [c] else []
+             | .error _ => [])
+          else
+          let cache0 : ScyllaVerif.PreparedCacheConc.Cache := c.zipIdx.map (fun ((tx, p), i) => ⟨tx, p.id, i⟩)
+          let s0 : ScyllaVerif.PreparedCacheConc.State :=
+            ⟨cache0, fun k => match qTexts[k]? with | some tx => .lookup (csTexts.getD tx "") | none => .idle, cache0.length⟩
+          let callsOf (f : ScyllaVerif.PreparedCacheConc.State) (tx : Nat) : Nat :=
+            ((List.range m).filter (fun k => qTexts[k]? == some tx && (match f.pc k with
+              | .done _ true | .failed _ | .loopHead _ | .removing _ _ | .inserting _ | .preparing _ => true | _ => false))).length
+          let framesFine (f : ScyllaVerif.PreparedCacheConc.State) : Bool := (List.range 5).all (fun tx => match pa.lookup tx with
+            | some answers => callsOf f tx > 0 && framesOk st.conns (callsOf f tx) answers
+            | none => callsOf f tx == 0)
+          let toCache (f : ScyllaVerif.PreparedCacheConc.State) : Cache :=
+            f.cache.map (fun e => (e.text, (⟨e.id, e.text, Cfg.default, 5000, st.u⟩ : PStmt)))
+          if res == "ok" then
+            let finals := Conc.explore st.cap prepOf m (8 * m + 8) [s0] []
+            finals.filterMap (fun f =>
+              -- the batch handed on: prepared statements as they are, every unprepared one replaced by ITS caller's handle
+              let handles : List (Option PStmt) := (List.range m).map (fun k => match f.pc k with
+                | .done e _ => some ⟨e.id, e.text, Cfg.default, 5000, st.u⟩ | _ => none)
+              if handles.any (·.isNone) then none else
+              let (rebuilt, _) := stmts.foldl (fun (acc : List BStmt × Nat) s => match s with
+                | .prepared p => (acc.1 ++ [.prepared p], acc.2)
+                | .query _ => (acc.1 ++ [match (handles.getD acc.2 none) with | some h => .prepared h | none => s], acc.2 + 1)) ([], 0)
+              if frame == batchToken { b with stmts := rebuilt } idx && framesFine f then some (toCache f) else none)
+          else
+            -- a preparation failed: the call ends with that error at some point of some interleaving
+            if !errLabels.contains res || frame != "-" then [] else
+            ((Conc.exploreAll st.cap prepOf m (8 * m + 8) [s0] [s0]).filter (fun f =>
+              (List.range m).any (fun k => match f.pc k with | .failed _ => true | _ => false))).map toCache)).flatten
         let next := dedupC results
         if next.isEmpty then .error s!"not producible by the model from any of its {st.cands.length} cache(s)" else .ok { st with cands := next }
+    | _ => .error "bad token"
+  | 'c' :: body =>
+    match tok.splitOn "~" with
+    | [opE, paE, idsE, res] =>
+      if opE != op then .error "op echo" else
+      match parsePa ((paE.splitOn "pa=").getLastD ""), body.mapM (fun ch => if ch.isDigit && ch.toNat - 48 < 5 then some (ch.toNat - 48) else none) with
+      | some pa, some texts =>
+        let m := texts.length
+        let obsIds := ((idsE.splitOn "ids=").getLastD "").splitOn ","
+        if obsIds.length != m || res != "ok" then .error "ids" else
+        -- what the cluster answers for a text now (per-node answers printed by the harness; `prepareNongeneric`)
+        let prepOf (text : String) : Except Nat String :=
+          match pa.lookup (textNo text) with
+          | some answers => (match (prepareOutcomes st.conns answers).head? with | some o => toNatErr o | none => .error 0)
+          | none => .error 0
+        let results : List Cache := (st.cands.map (fun c =>
+          let cache0 : ScyllaVerif.PreparedCacheConc.Cache := c.zipIdx.map (fun ((t, p), i) => ⟨t, p.id, i⟩)
+          let s0 : ScyllaVerif.PreparedCacheConc.State :=
+            ⟨cache0, fun k => match texts[k]? with | some t => .lookup (csTexts.getD t "") | none => .idle, cache0.length⟩
+          let finals := Conc.explore st.cap prepOf m (8 * m + 8) [s0] []
+          (finals.filterMap (fun f =>
+            -- the handles the callers got
+            let idsOk := (List.range m).all (fun k => match f.pc k with
+              | .done e _ => obsIds[k]? == some (showIdHex e.id)
+              | .failed _ => obsIds[k]? == some "E"
+              | _ => false)
+            -- the cluster was asked once per miss: frames per node
+            let callsOf (t : Nat) : Nat := ((List.range m).filter (fun k => texts[k]? == some t && (match f.pc k with
+              | .done _ true | .failed _ => true | _ => false))).length
+            let framesFine := (List.range 5).all (fun t => match pa.lookup t with
+              | some answers => callsOf t > 0 && framesOk st.conns (callsOf t) answers
+              | none => callsOf t == 0)
+            if idsOk && framesFine then
+              some (f.cache.map (fun e => (e.text, (⟨e.id, e.text, Cfg.default, 5000, st.u⟩ : PStmt)))) else none)))).flatten
+        let next := dedupC results
+        if next.isEmpty then .error s!"no interleaving of the concurrent model produces this from any of its {st.cands.length} cache(s)" else .ok { st with cands := next }
+      | _, _ => .error "unparsable"
     | _ => .error "bad token"
   | _ => .error "bad op"
 
@@ -310,7 +418,9 @@ def runCs (ws : List String) (impl : String) : String :=
       let cs := op.toList
       match cs with
       | [c, a, 't', d] => (c == 'M' || c == 'N' || c == 'F' || c == 'G') && a.isDigit && (a.toNat - 48) < n && d.isDigit && (d.toNat - 48) < 5
+      | ['V', a] => a.isDigit && (a.toNat - 48) < n
       | ['x', a, 'c', k] => a.isDigit && (a.toNat - 48) < 5 && k.isDigit && (k.toNat - 48) < 3
+      | 'c' :: body => 1 ≤ body.length && body.length ≤ 3 && body.all (fun d => d.isDigit && (d.toNat - 48) < 5)
       | 'b' :: body => body.length % 2 == 0 && !body.isEmpty && body.length ≤ 12 &&
           (List.range (body.length / 2)).all (fun j => (body[2 * j]? == some 'q' || body[2 * j]? == some 'p') &&
             (match body[2 * j + 1]? with | some d => d.isDigit && (d.toNat - 48) < 5 | none => false))
@@ -320,7 +430,13 @@ def runCs (ws : List String) (impl : String) : String :=
     if implT.startsWith "e2e-skip" then implT else
     let toks := implT.splitOn " ; "
     if toks.length != ops.length then "REJECT token count" else
-    let st0 : CsState := ⟨n, max sh 1, cap, u, [[]]⟩
+    -- developer switch (never generated): `mut=1` / `mut=2` run the checker with a WRONG capacity (cap+1 / cap-1), to
+    -- measure how often a wrong eviction decision is observable in the run
+    let capM := match getParam ws "mut" with
+      | some "1" => cap + 1
+      | some "2" => max (cap - 1) 1
+      | _ => cap
+    let st0 : CsState := ⟨n, max sh 1, capM, u, [[]]⟩
     let r := ((ops.zip toks).zipIdx).foldl (fun (acc : Except String CsState) ((op, tok), idx) =>
       match acc with
       | .error e => .error e
@@ -330,10 +446,189 @@ def runCs (ws : List String) (impl : String) : String :=
     | .error e => "REJECT " ++ e
   | _, _, _ => "bad-case"
 
+/-! ## cm (checker): CachingSession handles and the shared result metadata, connections WITH the metadata-id extension
+
+`cm n=<n> cap=<cap> ops=<op>.<op>…`, texts 0-2 (the SELECT spellings). The harness keeps every handle it was given in a
+numbered slot. Ops: `g<t>` one `add_prepared_statement`, handle → next slot; `c<t><t>…` concurrent callers, handles →
+next slots in caller order; `A<t>` the schema changes (every node: the statement's result metadata version + 1);
+`h<j>` `Session::execute_unpaged` through the handle in slot j; `x<t>` `CachingSession::execute_unpaged(text)`.
+Tokens: `<op>~p=<n0>.<n1>.<n2>` (preparations per text), `…~mid=<version presented>~chg=<node answered METADATA_CHANGED>`.
+The checker keeps the set of (cache with cells, cell of every slot, version held by every cell) the MODEL
+(`PreparedCacheConc.step`, `execThrough`, `newCell`) can be in. -/
+
+namespace Cm
+open ScyllaVerif.PreparedCacheConc
+
+structure St where
+  cache : PreparedCacheConc.Cache
+  /-- (text number, cell) of every handle the harness holds -/
+  slots : List (Nat × Nat)
+  /-- version held by each cell -/
+  cells : List (Nat × Nat)
+
+def cellsFn (cells : List (Nat × Nat)) : Cells := fun c => (cells.lookup c).getD 0
+
+/-- cells renamed in order of first appearance (slots, then the cache by text); unreferenced cells dropped -/
+def canon (s : St) : St :=
+  let cacheS := s.cache.mergeSort (fun a b => a.text ≤ b.text)
+  let order := ((s.slots.map (·.2)) ++ cacheS.map (·.cell)).eraseDups
+  let ren (c : Nat) : Nat := (order.findIdx? (· == c)).getD 0
+  ⟨cacheS.map (fun e => ⟨e.text, e.id, ren e.cell⟩), s.slots.map (fun (t, c) => (t, ren c)),
+   order.zipIdx.map (fun (c, i) => (i, cellsFn s.cells c))⟩
+
+def key (s : St) : String :=
+  "|".intercalate (s.cache.map (fun e => s!"{textNo e.text}:{e.cell}")) ++ "#" ++
+  "|".intercalate (s.slots.map (fun (t, c) => s!"{t}:{c}")) ++ "#" ++
+  "|".intercalate (s.cells.map (fun (c, v) => s!"{c}:{v}"))
+
+def dedup (ss : List St) : List St :=
+  ((ss.map canon).foldl (fun (acc : List (String × St)) s =>
+    let k := key s
+    if acc.any (·.1 == k) then acc else (k, s) :: acc) []).map (·.2)
+
+def pcKeyC : Pc → String
+  | .loopHead e => "h" ++ e.text ++ "/" ++ toString e.cell
+  | .removing e v => "r" ++ e.text ++ "/" ++ toString e.cell ++ "/" ++ v
+  | .inserting e => "n" ++ e.text ++ "/" ++ toString e.cell
+  | .done e m => "d" ++ e.text ++ "/" ++ toString e.cell ++ (if m then "+" else "-")
+  | p => Conc.pcKey p
+
+def stKeyC (m : Nat) (st : State) : String :=
+  let c := (st.cache.map (fun e => e.text ++ "/" ++ toString e.cell)).mergeSort (· ≤ ·)
+  "|".intercalate c ++ "#" ++ "|".intercalate ((List.range m).map (fun k => pcKeyC (st.pc k))) ++ "#" ++ toString st.nextCell
+
+def dedupStC (m : Nat) (sts : List State) : List State :=
+  (sts.foldl (fun (acc : List (String × State)) s =>
+    let k := stKeyC m s
+    if acc.any (·.1 == k) then acc else (k, s) :: acc) []).map (·.2)
+
+/-- every terminal state reachable by some interleaving, statement objects (cells) kept apart -/
+def exploreC (cap : Nat) (prep : String → Except Nat String) (m : Nat) : Nat → List State → List State → List State
+  | 0, _, acc => acc
+  | fuel + 1, frontier, acc =>
+    if frontier.isEmpty then acc else
+    let next := dedupStC m ((frontier.map (Conc.successors cap prep m)).flatten)
+    let (fin, rest) := next.partition (Conc.finished m)
+    exploreC cap prep m fuel rest (dedupStC m (acc ++ fin))
+
+def cmTexts : List String := csTexts.take 3
+
+def prepOk : String → Except Nat String := fun t => .ok (t ++ "#0")
+
+def showP (ps : List Nat) : String := ".".intercalate (ps.map toString)
+
+/-- `texts` (one caller each) call add_prepared_statement at once on candidate `s`: every outcome as
+(new state WITHOUT the new handles in slots, the callers' handles (text, cell), preparations per text) -/
+def adds (mu cap : Nat) (srv : List Nat) (s : St) (texts : List Nat) : List (St × List (Nat × Nat) × List Nat) :=
+  let m := texts.length
+  let next0 := (s.cells.map (·.1)).foldl (fun a c => max a (c + 1)) 0
+  let s0 : State := ⟨s.cache, fun k => match texts[k]? with | some t => .lookup (cmTexts.getD t "") | none => .idle, next0⟩
+  (exploreC cap prepOk m (8 * m + 8) [s0] []).filterMap (fun f =>
+    let hs : List (Option (Nat × Nat × Bool)) := (List.range m).map (fun k => match f.pc k with
+      | .done e missed => some (textNo e.text, e.cell, missed) | _ => none)
+    if hs.any (·.isNone) then none else
+    let hs' := hs.filterMap id
+    -- a statement object made by a preparation holds the version the cluster announces now
+    let cells' := (hs'.filter (·.2.2)).foldl (fun (acc : List (Nat × Nat)) (t, c, _) =>
+      let fn := newCell (cellsFn acc) c (srv.getD t 0)
+      (c, fn c) :: acc) s.cells
+    let counts := (List.range 3).map (fun t => (hs'.filter (fun h => h.1 == t && h.2.2)).length)
+    -- developer switch `mut=3` (never generated): a hit hands out a COPY of the statement object (no sharing)
+    let (hsM, cellsM) := if mu != 3 then (hs'.map (fun (t, c, _) => (t, c)), cells') else
+      (hs'.zipIdx.foldl (fun (acc : List (Nat × Nat) × List (Nat × Nat)) ((t, c, missed), i) =>
+        if missed then (acc.1 ++ [(t, c)], acc.2) else
+        let fresh := f.nextCell + 100 + i
+        (acc.1 ++ [(t, fresh)], (fresh, cellsFn acc.2 c) :: acc.2)) ([], cells'))
+    some (⟨f.cache, s.slots, cellsM⟩, hsM, counts))
+
+/-- one execution through a handle on `cell` of text `t`: presented version, changed?, the state after -/
+def execH (mu : Nat) (srv : List Nat) (s : St) (t cell : Nat) : Nat × Bool × St :=
+  let r := execThrough (cellsFn s.cells) cell (srv.getD t 0)
+  -- developer switch `mut=4` (never generated): every statement object of the text learns what one was told
+  let same : List Nat := if mu != 4 then [] else
+    (s.slots.filter (·.1 == t)).map (·.2) ++ (s.cache.filter (fun e => textNo e.text == t)).map (·.cell)
+  let cells1 := (cell, r.2.2 cell) :: s.cells.filter (·.1 != cell)
+  (r.1, r.2.1, { s with cells := cells1.map (fun (c, v) => if same.contains c then (c, r.2.2 cell) else (c, v)) })
+
+def b01 (b : Bool) : String := if b then "1" else "0"
+
+structure Ck where
+  srv : List Nat
+  cands : List St
+
+def stepCm (mu cap : Nat) (ck : Ck) (op tok : String) : Except String Ck :=
+  let fin (next : List St) (ck' : Ck) : Except String Ck :=
+    let d := dedup next
+    if d.isEmpty then .error s!"not producible by the model from any of its {ck.cands.length} state(s)" else .ok { ck' with cands := d }
+  match op.toList with
+  | ['A', d] =>
+    let t := d.toNat - 48
+    if tok != op then .error "event token" else
+    .ok { ck with srv := ck.srv.zipIdx.map (fun (v, i) => if i == t then v + 1 else v) }
+  | 'g' :: [d] =>
+    let t := d.toNat - 48
+    fin ((ck.cands.map (fun s => (adds mu cap ck.srv s [t]).filterMap (fun (s', hs, ps) =>
+      if tok == s!"{op}~p={showP ps}" then some { s' with slots := s'.slots ++ hs } else none))).flatten) ck
+  | 'c' :: body =>
+    let texts := body.map (fun d => d.toNat - 48)
+    fin ((ck.cands.map (fun s => (adds mu cap ck.srv s texts).filterMap (fun (s', hs, ps) =>
+      if tok == s!"{op}~p={showP ps}" then some { s' with slots := s'.slots ++ hs } else none))).flatten) ck
+  | 'h' :: js =>
+    match (String.ofList js).toNat? with
+    | none => .error "bad op"
+    | some j =>
+      fin (ck.cands.filterMap (fun s => match s.slots[j]? with
+        | none => none
+        | some (t, cell) =>
+          let (pres, chg, s') := execH mu ck.srv s t cell
+          if tok == s!"{op}~mid={pres}~chg={b01 chg}" then some s' else none)) ck
+  | 'x' :: [d] =>
+    let t := d.toNat - 48
+    fin ((ck.cands.map (fun s => (adds mu cap ck.srv s [t]).filterMap (fun (s', hs, ps) =>
+      match hs with
+      | [(t', cell)] =>
+        let (pres, chg, s'') := execH mu ck.srv s' t' cell
+        if tok == s!"{op}~p={showP ps}~mid={pres}~chg={b01 chg}" then some s'' else none
+      | _ => none))).flatten) ck
+  | _ => .error "bad op"
+
+def runCm (ws : List String) (impl : String) : String :=
+  match (getParam ws "n").bind String.toNat?, (getParam ws "cap").bind String.toNat?, getParam ws "ops" with
+  | some n, some cap, some opsS =>
+    let ops := (opsS.splitOn ".").filter (· ≠ "")
+    let d3 (c : Char) : Bool := c.isDigit && (c.toNat - 48) < 3
+    -- slots are created by g / c only, in order: h<j> must name an existing one
+    let (okOps, _) := ops.foldl (fun (acc : Bool × Nat) op => match op.toList with
+      | ['A', d] | ['x', d] => (acc.1 && d3 d, acc.2)
+      | ['g', d] => (acc.1 && d3 d, acc.2 + 1)
+      | 'c' :: body => (acc.1 && 1 ≤ body.length && body.length ≤ 3 && body.all d3, acc.2 + body.length)
+      | 'h' :: js => (acc.1 && !js.isEmpty && js.all Char.isDigit && js.length ≤ 2 && ((String.ofList js).toNat?.getD 99) < acc.2, acc.2)
+      | _ => (false, acc.2)) (true, 0)
+    if !(1 ≤ n && n ≤ 3 && 1 ≤ cap && cap ≤ 4 && ops.length ≤ 40 && okOps) then "bad-case" else
+    let implT := impl.trimAscii.toString
+    if implT.startsWith "e2e-skip" then implT else
+    let toks := implT.splitOn " ; "
+    if toks.length != ops.length then "REJECT token count" else
+    -- developer switches (never generated): `mut=3` = every hit makes its own object (no sharing), `mut=4` = all
+    -- objects of a text share, to measure how often a wrong sharing relation is observable in the run
+    let mu := ((getParam ws "mut").bind String.toNat?).getD 0
+    let r := (ops.zip toks).foldl (fun (acc : Except String Ck) (op, tok) =>
+      match acc with
+      | .error e => .error e
+      | .ok ck => match stepCm mu cap ck op tok with | .error e => .error s!"{op}: {e}" | .ok ck' => .ok ck') (.ok ⟨[0, 0, 0], [⟨[], [], []⟩]⟩)
+    match r with
+    | .ok _ => implT
+    | .error e => "REJECT " ++ e
+  | _, _, _ => "bad-case"
+
+end Cm
+
 def run (case impl : String) : String :=
   match words case with
-  | ["pb", cfg, fail, items] => runPb cfg fail items
+  | ["pb", cfg, fail, items] => runPb cfg fail items "-"
+  | ["pb", cfg, fail, items, ev] => runPb cfg fail items ev
   | "cs" :: rest => runCs rest impl
+  | "cm" :: rest => Cm.runCm rest impl
   | _ => "bad-case"
 
 end ScyllaVerif.Drive.C14Session
